@@ -100,6 +100,10 @@ def ossl_ctx(c, server_side):
         v = TLSV[3]
     ctx.minimum_version = v
     ctx.maximum_version = v
+    if c["kind"] == "range-os":
+        # everything this OpenSSL enables, up to TLS 1.3
+        ctx.minimum_version = TLSV[min(k for k in TLSV if k >= 1)]
+        ctx.maximum_version = TLSV[max(TLSV)]
     if c["ver"] < 4:
         name = openssl_name(c["sid"])
         ctx.set_ciphers((name if c["kind"] != "nocommon-suite" else "AES128-GCM-SHA256") + ":@SECLEVEL=0")
